@@ -113,6 +113,17 @@ class Ctx:
         if count < minimum:
             self.ob(rule, "ANCHOR-MISSING/%s" % name, False, "matched %d instances, floor %d: the rule would pass vacuously" % (count, minimum))
 
+    def under(self, rule, fn):
+        """run a rule function written for a sibling property, reporting its obligations under `rule` of this one"""
+        ob, floor = self.ob, self.floor
+        self.ob = lambda r, *a, **kw: ob(rule, *a, **kw)
+        self.floor = lambda r, *a, **kw: floor(rule, *a, **kw)
+        try:
+            return fn()
+        finally:
+            del self.ob
+            del self.floor
+
     def guard(self, rule, name, fn):
         """run fn(); an unresolved anchor is a violation of the rule (fail closed)"""
         try:
